@@ -407,6 +407,9 @@ def unpack_opargs_bytecode_310(code, opc):
         if op_has_argument(op, opc):
             arg = code2num(code, offset + 1) | extended_arg
             extended_arg = extended_arg_val(opc, arg) if op == opc.EXTENDED_ARG else 0
+            if opc.version_tuple >= (3, 11) and extended_arg >= 0x80000000:
+                # Since 3.11 the operand is a signed 32-bit integer: it wraps
+                extended_arg -= 0x100000000
         else:
             arg = None
             # Since 3.10 (bpo-45757) an instruction without operand ends an
